@@ -699,6 +699,16 @@ impl Subscription {
                     continue;
                 };
 
+                // The stream index is per bucket: events the stream id has under another
+                // partition key are not this subscription's (the live path matches on the key
+                // too), and this partition's watermark says nothing about them
+                if commit
+                    .first()
+                    .is_some_and(|event| event.partition_key != partition_key)
+                {
+                    break 'iter;
+                }
+
                 if !watermark.can_read(first_partition_sequence) {
                     // Stop the whole history read: going on with the next batch would skip
                     // this event if the watermark has advanced in the meantime
